@@ -1291,8 +1291,74 @@ class Inliner:
                 return pre + body
         return None
 
+    def _expand_for_gen(self, s, fq, mn, cls, chain):
+        """for x in helper(args): B     (helper a new generator with one `yield E`)
+           ->  the helper's body with `yield E` replaced by  x = E; B"""
+        if s.orelse or not isinstance(s.iter, ast.Call):
+            return None
+        site = self._site(s.iter, fq, mn, cls, chain)
+        if not site:
+            return None
+        q, recv, (hfn, hcls, hfunc, hmn) = site
+        ys = [n for n in _walk_same_function(hfn) if isinstance(n, (ast.Yield, ast.YieldFrom))]
+        if len(ys) != 1 or not isinstance(ys[0], ast.Yield) or ys[0].value is None or any(r.value is not None for r in _returns_in(hfn)):
+            return None
+        if any(isinstance(n, ast.Break) for b in s.body for n in _walk_loop_body(b)):
+            return None  # leaving the consumer's loop would have to leave all of the helper's loops
+        has_continue = any(isinstance(n, ast.Continue) for b in s.body for n in _walk_loop_body(b))
+        body, exprmap, pre, ok = self._bind(s.iter, hfn, recv, q)
+        if not ok:
+            return None
+        if _has_return_list(body):
+            return None
+        y = next(n for b in body for n in _walk_same_function(b) if isinstance(n, ast.Yield))
+        done = []
+
+        def put(stmts, in_loop, is_last_of_loop):
+            out = []
+            for i, st in enumerate(stmts):
+                if isinstance(st, ast.Expr) and st.value is y:
+                    last = i == len(stmts) - 1
+                    if has_continue and not (in_loop and is_last_of_loop and last):
+                        return None  # `continue` in B means: on to the next yielded value
+                    if not in_loop and has_continue:
+                        return None
+                    asg = ast.Assign(targets=[copy.deepcopy(s.target)], value=y.value)
+                    for n_ in ast.walk(asg.targets[0]):
+                        if hasattr(n_, "ctx"):
+                            n_.ctx = ast.Store()
+                    out.append(ast.fix_missing_locations(ast.copy_location(asg, s)))
+                    out.extend(s.body)
+                    done.append(1)
+                    continue
+                if any(isinstance(n, ast.Yield) for n in _walk_same_function(st)):
+                    if isinstance(st, (ast.For, ast.While)) and not st.orelse:
+                        nb = put(st.body, True, True)
+                        if nb is None:
+                            return None
+                        st.body = nb
+                    elif isinstance(st, ast.If):
+                        nb = put(st.body, in_loop, is_last_of_loop and i == len(stmts) - 1)
+                        no = put(st.orelse, in_loop, is_last_of_loop and i == len(stmts) - 1) if st.orelse else []
+                        if nb is None or no is None:
+                            return None
+                        st.body, st.orelse = nb or [ast.copy_location(ast.Pass(), st)], no
+                    else:
+                        return None
+                out.append(st)
+            return out
+        new = put(body, False, False)
+        if new is None or not done:
+            return None
+        self._note(q, fq)
+        return pre + new
+
     def _expand_stmt(self, s, fq, mn, cls, chain):
         """list of statements replacing s, or None"""
+        if isinstance(s, ast.For):
+            rep = self._expand_for_gen(s, fq, mn, cls, chain)
+            if rep is not None:
+                return rep
         if isinstance(s, ast.With):
             rep = self._expand_with(s, fq, mn, cls, chain)
             if rep is not None:
@@ -1875,11 +1941,14 @@ def normalize_package(trees, known=None, passes=None):
             known = load_known()
         inl = Inliner(trees, known)
         stats["inline"] = inl.run()
-        if on(6) and (stats["inline"].get("dissolved") or stats["inline"].get("closures") or stats["inline"].get("specialised")):
-            # dissolved objects leave aliases of their methods behind (`match = self._match`): resolve them and unfold once more
+        if on(6) and stats["inline"].get("inlined"):
+            # unfolding leaves aliases (`match = self._match`) and search loops (`v = X; break`) behind that hide further helpers:
+            # bring what was unfolded into canonical form and unfold once more
             for mn, t in trees.items():
                 for q, fn, cls, func in qualnames(t, mn):
                     explain_vars(fn)
+                if on(7):
+                    canon_flow(t)
             inl2 = Inliner(trees, known)
             st2 = inl2.run()
             stats["inline"]["inlined"] += st2["inlined"]
